@@ -42,11 +42,9 @@ def build_tree(rng, root, idx):
         if kind == "file" and files:
             tgt = rng.choice(files)
             os.symlink(os.path.relpath(os.path.join(root, tgt), os.path.dirname(full)), full)
-        elif kind == "dir" and len(dirs) > 1:
-            tgt = rng.choice(dirs[1:])
-            # never a link to an ancestor or to itself: the walk has no loop protection (noted under C01)
-            if (parent + "/").startswith(tgt + "/") or tgt == parent:
-                continue
+        elif kind == "dir":
+            # any directory, also an ancestor, the parent itself or the root: a directory that contains itself through links
+            tgt = rng.choice(dirs[1:] + [parent, ""] + [d for d in dirs if d and (parent + "/").startswith(d + "/")])
             os.symlink(os.path.relpath(os.path.join(root, tgt), os.path.dirname(full)), full)
         else:
             os.symlink("nowhere%d.slice" % n, full)
@@ -74,19 +72,21 @@ def oracle(root, args):
     K, C, L, U = {}, {}, {}, []
     ids = {}
 
-    def visit(p, depth):
-        if p in K or depth > 14:
+    def visit(p, anc):
+        if p in K or len(anc) > 40:
             return
         full = os.path.join(root, p)
         if os.path.isdir(full):
             K[p] = "d"
+            real = os.path.realpath(full)
             try:
                 names = os.listdir(full)
                 L[p] = [os.path.join(p, n) if not p.endswith("/") else p + n for n in names]
             except OSError:
                 L[p] = None
-            for c in L[p] or []:
-                visit(c, depth + 1)
+            if real not in anc:          # a directory reached again from within itself is not entered (what lies below is never asked for)
+                for c in L[p] or []:
+                    visit(c, anc + [real])
         elif os.path.isfile(full):
             K[p] = "f"
             try:
@@ -98,7 +98,7 @@ def oracle(root, args):
         if os.path.exists(full):
             C[p] = ids.setdefault(os.path.realpath(full), len(ids))
     for a in args:
-        visit(a, 0)
+        visit(a, [])
     return K, C, L, U
 
 
@@ -199,4 +199,4 @@ def run(ck):
     ck.samples.append({"stream": "filesets", "case": lines[0][:300], "impl": o[0][:300], "model": m[0][:300]})
     ck.extra["rule"] = "%d random trees and argument lists; distinct by case text" % n
     ck.partial.append("directories that cannot be listed and files that cannot be opened cannot be produced when the check runs as root; unreadable content is produced with invalid UTF-8 instead. "
-                      "Symbolic links to an ancestor directory are not generated (the walk has no loop protection; its termination is exercised under C01).")
+                      "Symbolic links that lead back into a directory being searched are generated; the walk's termination is a theorem of the model (C17_walk_fuel_independent).")
